@@ -215,3 +215,78 @@ func H11() {
 		}
 	}
 }
+
+// H11dia: a diamond (an identity with two bases whose bases share a base) with a further level
+// below it, spread over three modules, under every load order and one perturbed range event over
+// the library's identity and module maps: every list holds each derived identity exactly once.
+// A union of identityrefs whose bases are equally named identities of three modules keeps all
+// three members, each pointing at its own identity.
+func H11dia() {
+	r := `module r { yang-version 1.1; namespace "urn:r"; prefix r; identity ROOT; identity KIND; identity KR { base KIND; } }`
+	a := `module a { yang-version 1.1; namespace "urn:a"; prefix a; import r { prefix r; } identity LEFT { base r:ROOT; } identity RIGHT { base r:ROOT; } identity KIND; identity KA { base KIND; } identity KA2 { base KIND; } }`
+	second := []string{"a:RIGHT", "r:ROOT"}[symChoice(2)]
+	b := `module b { yang-version 1.1; namespace "urn:b"; prefix b; import r { prefix r; } import a { prefix a; } identity BOTH { base a:LEFT; base ` + second + `; } identity LEAF { base BOTH; } identity KIND; ` +
+		`leaf u { type union { type identityref { base a:KIND; } type identityref { base KIND; } type identityref { base r:KIND; } } } leaf d { type identityref { base r:ROOT; } } }`
+	texts := []string{r, a, b}
+	orders := [][]int{{0, 1, 2}, {2, 1, 0}, {1, 2, 0}, {2, 0, 1}}
+	o := orders[symChoice(len(orders))]
+	hNoFiles()
+	ms := NewModules()
+	for _, k := range o {
+		check(ms.Parse(texts[k], "f"+string([]byte{'0' + byte(k)})+".yang") == nil, "the modules load")
+	}
+	errs := ms.Process()
+	check(len(errs) == 0, "the modules process")
+	if len(errs) > 0 {
+		return
+	}
+	reach("accepted")
+	id := func(mod, name string) *Identity {
+		for _, i := range ms.Modules[mod].Identity {
+			if i.Name == name {
+				return i
+			}
+		}
+		return nil
+	}
+	expect := func(i *Identity, names ...string) {
+		check(i != nil, "identity exists")
+		if i == nil {
+			return
+		}
+		check(len(i.Values) == len(names), "each identity lists exactly its transitive derivations, each once")
+		for _, n := range names {
+			c := 0
+			for _, v := range i.Values {
+				if v.Name == n {
+					c++
+				}
+			}
+			check(c == 1, "each identity lists exactly its transitive derivations, each once")
+		}
+		for k := 1; k < len(i.Values); k++ {
+			check(i.Values[k-1].Name <= i.Values[k].Name, "the list is in a fixed order (by name)")
+		}
+	}
+	expect(id("r", "ROOT"), "BOTH", "LEAF", "LEFT", "RIGHT")
+	if second == "a:RIGHT" {
+		expect(id("a", "RIGHT"), "BOTH", "LEAF")
+	} else {
+		expect(id("a", "RIGHT"))
+	}
+	expect(id("a", "LEFT"), "BOTH", "LEAF")
+	expect(id("b", "BOTH"), "LEAF")
+	expect(id("b", "LEAF"))
+	expect(id("a", "KIND"), "KA", "KA2")
+	expect(id("b", "KIND"))
+	expect(id("r", "KIND"), "KR")
+	eb := ToEntry(ms.Modules["b"])
+	u := eb.Dir["u"]
+	check(u != nil && u.Type != nil && len(u.Type.Type) == 3, "a union keeps its identityref members whose bases are equally named identities of different modules")
+	if u != nil && u.Type != nil && len(u.Type.Type) == 3 {
+		check(u.Type.Type[0].IdentityBase == id("a", "KIND") && u.Type.Type[1].IdentityBase == id("b", "KIND") && u.Type.Type[2].IdentityBase == id("r", "KIND"),
+			"every identityref points at the identity its base statement names")
+	}
+	d := eb.Dir["d"]
+	check(d != nil && d.Type != nil && d.Type.IdentityBase == id("r", "ROOT"), "an identityref sees the list of the identity it names")
+}
